@@ -158,6 +158,16 @@ func c17a(c *Ctx) {
 						return Unknown
 					}
 					cut := Cut{Edges: unionEdges(g.FeasibleCut(env), infeasible)}
+					// the eviction loop itself: it has an element to visit exactly when one is pending
+					if loop := lowPriorityLoop(f); loop != nil {
+						if head := rangeHead(g, loop); head != nil && len(head.Succs) == 2 {
+							if lpEmpty {
+								cut.Edges[Edge{head, 0}] = true
+							} else {
+								cut.Edges[Edge{head, 1}] = true
+							}
+						}
+					}
 					reach := func(ss []Site) bool {
 						pt, _ := g.Reach(nDef.After(), cut, atAnySite(ss))
 						return pt != nil
